@@ -144,6 +144,13 @@ def check_doc(nodes, src, case, res):
                     exp.add(n.span[0])
             queries.append((q, sorted(exp)))
             labels.add('q:full-expression')
+        # an opening that differs from an existing one only in its name (same length, same arguments) matches nothing
+        for n, cont, depth in sub[:40]:
+            if n.kind in ('env', 'list', 'verb') and n.args:
+                other = ''.join('q' if ch != 'q' else 'p' for ch in n.name)
+                if other not in names:
+                    queries.append(('\\begin{%s}' % other + src[n.span[0] + len('\\begin{%s}' % n.name):n.args[-1].span[1]], []))
+                    break
         for q, want in queries:
             qcase = dict(case, query=q, root=None if rs is None else rs.span[0], expected=want)
             try:
